@@ -145,6 +145,12 @@ def w_seeded(seeds):
             m = valtrace.mutate(root, rnd, t, PLANT_OPS)
             if m:
                 muts.append(m)
+        if seed % 40 == 39:
+            # hundreds of offending children under one parent, interleaved with allowed ones
+            host = rnd.choice([n for n in walk(root) if n.name in t.node_map])
+            for i in range(300):
+                host.add_child(Node(rnd.choice(["zzJunk", "title", "zzOther", "para"]), content="x"), index=rnd.randint(0, len(host.children)))
+            muts.append({"op": "300 mixed children", "at": host.name})
         if root.name not in t.node_map:          # the statement is about trees rooted at a known element
             root.name = "dataset"
         desc["mutations"] = muts
